@@ -270,7 +270,11 @@ impl Property for C01 {
             _ => 5,
         };
         // quick tiers use the inputs "5" and "(:a = 1, :b = 2)"; thorough all five
-        let sel: Vec<usize> = if c.name == "T4" { vec![1, 5] } else if n_inputs == 2 { vec![1, 3] } else { (0..5).collect() };
+        // T1 (every operator once) and the small T6/T7 corpora also run with the input whose key `a` holds unit
+        let mut sel: Vec<usize> = if c.name == "T4" { vec![1, 5] } else if n_inputs == 2 { vec![1, 3] } else { (0..5).collect() };
+        if c.name == "T1" || (tier == Tier::Thorough && c.name != "T4") {
+            sel.push(6);
+        }
         for ii in sel {
             check_one::<SData>(cx, &e, ii, true);
             check_one::<BData>(cx, &e, ii, true);
